@@ -302,7 +302,7 @@ def masked_iterate_nonfinal(p):
 
 
 def worker_init():
-    sys.path.insert(0, "/repo/src")
+    sys.path.insert(0, os.environ.get("VERIF_REPO", "/repo") + "/src")
     os.environ.setdefault("JAX_PLATFORMS", "cpu")
     import warnings
     warnings.filterwarnings("ignore")
